@@ -149,6 +149,25 @@ func c04exec(c *Ctx, st *c04state, op Op, rng *rand.Rand) Ev {
 			it := its[i]
 			ev["it"] = [3]int{b2i(it.IsValid()), it.Key(), it.Value()}
 		}
+		if geti(op, "lite") == 2 || !has(op, "lite") && !has(op, "gets") && rng != nil && z == 0 && rng.Intn(6) == 0 {
+			// blind call: no observer (at most one lookup) before the next call
+			ev["lite"] = 2
+			gl := [][4]int{}
+			var gk []int
+			if has(op, "gets") {
+				for _, g := range getany(op, "gets") {
+					gk = append(gk, int(g.([]any)[0].(float64)))
+				}
+			} else if rng.Intn(2) == 0 {
+				gk = []int{rng.Intn(12)}
+			}
+			for _, x := range gk {
+				val, ok := mp.GetOK(x)
+				gl = append(gl, [4]int{x, val, b2i(ok), mp.Get(x)})
+			}
+			ev["gets"] = gl
+			return
+		}
 		ev["len"] = mp.Len()
 		if mp.Len() > 400 { // very large maps: Len, lookups and iterators only
 			ev["lite"] = 1
@@ -283,6 +302,16 @@ func runC04(c *Ctx) {
 					}
 					fallthrough
 				case "uniform":
+					if ks := st.m.Keys(); r >= 96 && len(ks) >= 3 {
+						// the key looked up last, then a different key deleted with no lookup in
+						// between, then the first key set anew and looked up: must show the new value
+						a := ks[rng.Intn(len(ks))]
+						b := ks[rng.Intn(len(ks))]
+						do(Op{"op": "look", "gets": []any{[]any{float64(a)}}})
+						do(Op{"op": "delete", "k": b, "gets": []any{}})
+						do(Op{"op": "set", "k": a, "v": val + 1000, "gets": []any{[]any{float64(a)}}})
+						continue
+					}
 					switch {
 					case r < 35:
 						do(Op{"op": "set", "k": rng.Intn(nk), "v": val, "w": w})
